@@ -24,7 +24,9 @@ let run (id : string) (hdr : string list) (lines : string list list) (out : stri
     let times = ref (Stdlib.List.filter_map (fun l -> match l with ["NOTE"; "t"; x] -> Some (int_of_string x) | _ -> None) impl) in
     let num k d = n_of_int (scale * int_of_string (kv_of hdr k d)) in
     let cfg = { c_idle = num "idle" "150"; c_ttl_ro = num "ttlro" "650"; c_ttl_rw = num "ttlrw" "450";
-                c_btimeout = n_of_int (int_of_string (kv_of hdr "bt" "10000"));
+                c_btimeout = (match kv_of hdr "bt" "" with
+                              | "" -> TxFacts.registry_begin_timeout_ms   (* the literal in the source *)
+                              | x -> n_of_int (int_of_string x));
                 c_svc = (kv_of hdr "svc" "0" = "1"); c_peer = (kv_of hdr "peer" "1" = "1") } in
     let s = ref init in
     let ni x = n_of_int (int_of_string x) in
